@@ -99,6 +99,7 @@ def run_impl(sc):
             sched = Sched(schedule, 'sched')
         else:
             sched = Sched(schedule, 'sched', sc['cyclic'])
+        schedule.append((0.125, -7))       # the caller goes on using its list: the scheduler must follow the timetable it was built with
         nobj = 1 + max([x[1] for x in sc['ext'] if x[0] in ('reg', 'unreg')] + [x[3] for x in sc['ext'] if x[0] in ('dreg', 'dunreg')] + [0])
         objs = [Obj(i) for i in range(nobj)]
 
